@@ -7,7 +7,7 @@ import ast
 from ..core import astutil as A
 from ..core.index import AnalysisError, external_module, external_signature
 from ..selftest import M
-from .common import T, calls_named, conds, every_origin, facts, key, need, subscript_stores, where
+from .common import may_conds, attr_stores, T, calls_named, conds, every_origin, facts, key, need, subscript_stores, where
 
 GDEF = "ufo2ft.featureWriters.gdefFeatureWriter.GdefFeatureWriter"
 CURS = "ufo2ft.featureWriters.cursFeatureWriter.CursFeatureWriter"
@@ -384,6 +384,36 @@ def r185(prog, chk):
         ok, bad = every_origin(prog, mf, a3, lambda x, f: isinstance(x, ast.Call) and A.callee_name(x) == "extraSubstitutions", allow_const=False) if a3 is not None else (False, ["missing"])
         chk.ob("R18.5", f"{mf.short}|{k}|designspace-rule substitutions", ok, where(mf, c), detail="extras = self.extraSubstitutions()",
                message=f"classifyGlyphs is not given the designspace-rule substitutions ({bad})")
+    # ... and that table holds every substitution of every rule: a glyph replaced by two rules (two bracket layers) keeps both targets
+    pc = ix.get_method("ufo2ft._compilers.baseCompiler.BaseInterpolatableCompiler", "_pre_compile_designspace", own=True)
+    ds_param = pc.params()[1]
+    plain = [(s_, t, v) for s_, t, v in attr_stores(pc, "extraSubstitutions") if T(t.value) == "self"]
+    need(plain, f"cannot interpret {pc.short}: extraSubstitutions")
+    def key_of(recv):
+        """table[left] (a defaultdict(set)) or table.setdefault(left, set()): the glyph the set belongs to"""
+        if isinstance(recv, ast.Subscript) and T(recv.value) == "self.extraSubstitutions":
+            return recv.slice, "subscript"
+        if isinstance(recv, ast.Call) and isinstance(recv.func, ast.Attribute) and recv.func.attr == "setdefault" and T(recv.func.value) == "self.extraSubstitutions" \
+                and len(recv.args) == 2 and T(recv.args[1]) in ("set()", "set([])"):
+            return recv.args[0], "setdefault"
+        return None, None
+    adds = [c for c in A.body_nodes(pc.node) if isinstance(c, ast.Call) and isinstance(c.func, ast.Attribute) and c.func.attr == "add" and key_of(c.func.value)[0] is not None]
+    how = key_of(adds[0].func.value)[1] if adds else None
+    ok_init = all((isinstance(v, ast.Call) and A.callee_name(v) == "defaultdict" and len(v.args) == 1 and T(v.args[0]) == "set") or
+                  (how == "setdefault" and isinstance(v, ast.Dict) and not v.keys) for s_, t, v in plain)
+    ok_add = len(adds) == 1
+    if ok_add:
+        c = adds[0]
+        loops = [a for a in ix.ancestors(c) if isinstance(a, ast.For)]  # innermost first
+        ok_add = len(loops) == 2 and isinstance(loops[0].target, ast.Tuple) and len(loops[0].target.elts) == 2 and isinstance(loops[1].target, ast.Name) \
+            and T(loops[0].iter) == f"{loops[1].target.id}.subs" and T(loops[1].iter) == f"{ds_param}.rules" \
+            and T(key_of(c.func.value)[0]) == T(loops[0].target.elts[0]) and len(c.args) == 1 and T(c.args[0]) == T(loops[0].target.elts[1]) \
+            and not [g for g in may_conds(prog, pc, c) if g.kind in ("if", "boolop", "ifexp", "while") and any(a is loops[1] for a in ix.ancestors(g.loc))] \
+            and not any(isinstance(x, (ast.Break, ast.Continue, ast.Return)) for x in ast.walk(loops[1]))
+    chk.ob("R18.5", f"{pc.short}|every (left, right) of every designspace rule is recorded, all targets of one glyph kept", ok_init and ok_add, where(pc, plain[0][0]),
+           detail="extraSubstitutions = defaultdict(set); for rule in rules: for left, right in rule.subs: extraSubstitutions[left].add(right)",
+           message=f"{pc.short}: the designspace-rule substitution table no longer holds every (glyph, replacement) of every rule (`{T(plain[0][2], 60)}`): a replacement that is "
+                   f"dropped is not classified as left-to-right and its cursive anchors end up in the RightToLeft lookup")
     # the LTR set used for the split is that classification
     for c in calls_named(mf, "_makeCursiveLookup"):
         gen = c.args[0] if c.args else None
@@ -407,6 +437,14 @@ def r185(prog, chk):
 
 
 MUTANTS = [
+    M("rule substitutions collected with a dict comprehension: one target per glyph (seeded C18j)", "ufo2ft/_compilers/baseCompiler.py", "BaseInterpolatableCompiler._pre_compile_designspace",
+      "self.extraSubstitutions = defaultdict(set)\nfor rule in designSpaceDoc.rules:\n    for left, right in rule.subs:\n        self.extraSubstitutions[left].add(right)",
+      "self.extraSubstitutions = {left: {right} for rule in designSpaceDoc.rules for left, right in rule.subs}", rule="R18.5"),
+    M("rule substitutions accumulated in a plain dict with setdefault", "ufo2ft/_compilers/baseCompiler.py", "BaseInterpolatableCompiler._pre_compile_designspace",
+      "self.extraSubstitutions = defaultdict(set)\nfor rule in designSpaceDoc.rules:\n    for left, right in rule.subs:\n        self.extraSubstitutions[left].add(right)",
+      "self.extraSubstitutions = {}\nfor rule in designSpaceDoc.rules:\n    for left, right in rule.subs:\n        self.extraSubstitutions.setdefault(left, set()).add(right)", kind="equiv"),
+    M("only the first substitution of each rule is recorded", "ufo2ft/_compilers/baseCompiler.py", "BaseInterpolatableCompiler._pre_compile_designspace",
+      "for left, right in rule.subs:\n    self.extraSubstitutions[left].add(right)", "for left, right in rule.subs[:1]:\n    self.extraSubstitutions[left].add(right)", rule="R18.5"),
     M("mark-categorised glyphs are not examined for cursive anchors (seeded C18h)", "ufo2ft/featureWriters/cursFeatureWriter.py", "CursFeatureWriter._makeCursiveFeature",
       "cursiveAnchorsPairs = self._getCursiveAnchorPairs(orderedGlyphSet)", "orderedGlyphSet = [(n, g) for n, g in orderedGlyphSet if n not in self.getOpenTypeCategories().mark]\ncursiveAnchorsPairs = self._getCursiveAnchorPairs(orderedGlyphSet)", rule="R18.4"),
     M("parsed categories remembered in the font's tempLib (seeded C18d)", "ufo2ft/util.py", "OpenTypeCategories.load",
